@@ -1,8 +1,10 @@
 (* Extraction of the C19 model for the correspondence check. ExtrOcamlBasic only. *)
 From V.lib Require Import Base.
-From V.c19 Require Import C19Model.
+From V.c19 Require Import C19Model C19RecModel.
 Require Import ExtrOcamlBasic.
 Separate Extraction
   avc_info st trak sentry scfg avcc hvcc dac3 ec3sub dec3 mchild mhdr outcome op desc
   run step empty_init mdia_children mhdr_name get_language set_language create_hdlr
-  moov_add_trak elng_payload elng_decode trak_shape stpp_payload stpp_decode.
+  moov_add_trak elng_payload elng_decode trak_shape stpp_payload stpp_decode
+  avcrec hvcrec avcrec_size avcrec_encode avcrec_decode avcrec_canon avcrec_of
+  hvcrec_size hvcrec_encode hvcrec_decode hvcrec_of.
